@@ -316,6 +316,11 @@ static int print_f(void (*printchar_handler)(void *d, int c),
     ip = precision ? fp != POW(base, sign_count) ? ip : ip + 1.0L
                    : roundl(ip + fp);
     fp = fp != POW(base, sign_count) ? fp : 0.0L;
+    /* %g drops the trailing zeros of the fraction unless '#' is given: also
+       those that the rounding has just produced */
+    if (is_shortened && !(ops & OPS_FLAG_WITH_SPEC))
+        for (; sign_count && (FMOD(fp, base) == 0.0L); --sign_count)
+            fp /= base;
     if (with_exp && (ip >= base))
         fp = MODF((ip + fp) / base, &ip), ep += 1.0L;
 
